@@ -109,6 +109,7 @@ def dispatch (toks : List String) : String :=
     | "recread" :: rest => Driver.recread rest
     | "recwrites" :: rest => Driver.recwrites rest
     | "recreads" :: rest => Driver.recreads rest
+    | "recreadc" :: rest => Driver.recread rest   -- the receiver has called CloseWrite first: nothing changes
     | "expad" :: rest => Driver.expad rest
     | "chain" :: rest => Driver.chain rest
     | _ => "bad-op"
